@@ -193,7 +193,7 @@ class PDFPage:
         try:
             return parse_rect(resolve1(val) for val in resolve1(value))
 
-        except PDFValueError:
+        except (PDFValueError, TypeError):
             log.warning("Invalid MediaBox in /Page, defaulting to US Letter")
             return us_letter
 
@@ -205,7 +205,7 @@ class PDFPage:
         try:
             return parse_rect(resolve1(val) for val in resolve1(value))
 
-        except PDFValueError:
+        except (PDFValueError, TypeError):
             log.warning("Invalid CropBox in /Page, defaulting to MediaBox")
             return mediabox
 
